@@ -363,9 +363,21 @@ pub struct ScenOut {
 }
 
 /// Run one scenario under an optional single-fault plan and judge descriptor hygiene.
-pub fn run_scenario(sc: &Scenario, plan: Option<Plan>, random: Option<u32>, dec: Dec, record: bool, slot: u64) -> (ScenOut, Dec) {
+pub fn run_scenario(sc: &Scenario, plan: Option<Plan>, random: Option<u32>, dec: Dec, record: bool, slot: u64, low_fd_free: bool) -> (ScenOut, Dec) {
     let dir = format!("/verif/work/c12.{}.{}", unsafe { libc::getpid() }, slot % 4);
     prepare_dir(&dir);
+    // descriptor-table state is part of "every": with descriptor 0 closed the kernel hands out
+    // 0 for the next open/socket/pipe, a number that code special-casing the standard streams
+    // would treat differently
+    let saved0 = if low_fd_free {
+        let s = unsafe { libc::fcntl(0, libc::F_DUPFD_CLOEXEC, 100) };
+        if s >= 0 {
+            unsafe { libc::close(0) };
+        }
+        s
+    } else {
+        -1
+    };
     let baseline = proc_fds();
     let k = PassKernel::new();
     k.plan.set(plan);
@@ -468,6 +480,12 @@ pub fn run_scenario(sc: &Scenario, plan: Option<Plan>, random: Option<u32>, dec:
             violation = Some(Violation { sig: format!("{}|{fail_label}|closed-foreign", sc.name), detail: format!("descriptors {lost:?} that existed before the operation are gone") });
         }
     }
+    if saved0 >= 0 {
+        unsafe {
+            libc::dup2(saved0, 0);
+            libc::close(saved0);
+        }
+    }
     if violation.is_none() && sh.returned_in_child != 0 {
         // not judged by C12 (C13's clause); counted
         sim.count("probe.child_returned_into_caller");
@@ -478,7 +496,7 @@ pub fn run_scenario(sc: &Scenario, plan: Option<Plan>, random: Option<u32>, dec:
     for n in &trace {
         h = simk::dec::mix(&[h, *n as u64]);
     }
-    h = simk::dec::mix(&[h, plan.map_or(0, |p| u64::from(p.index) << 16 | p.errno as u64 | if p.side == Side::Child { 1 << 40 } else { 0 }), u64::from(result_ok)]);
+    h = simk::dec::mix(&[h, plan.map_or(0, |p| u64::from(p.index) << 16 | p.errno as u64 | if p.side == Side::Child { 1 << 40 } else { 0 }), u64::from(result_ok), u64::from(low_fd_free)]);
     let events = sim.trace.events.take().unwrap_or_default();
     let rfv = random_fired.borrow().clone();
     let out = ScenOut { violation, trace, child_trace, fired, result_ok, events, hash: h, returned_in_child: sh.returned_in_child != 0, random_fired: rfv };
@@ -487,7 +505,7 @@ pub fn run_scenario(sc: &Scenario, plan: Option<Plan>, random: Option<u32>, dec:
 }
 
 struct Table {
-    cases: Vec<(usize, Option<Plan>)>,
+    cases: Vec<(usize, Option<Plan>, bool)>,
 }
 
 static TABLE: OnceLock<Table> = OnceLock::new();
@@ -497,11 +515,15 @@ fn table() -> &'static Table {
         let scs = scenarios();
         let mut cases = Vec::new();
         for (i, sc) in scs.iter().enumerate() {
-            let (o, _) = run_scenario(sc, None, None, Dec::from_list(Vec::new()), false, 0);
-            cases.push((i, None));
+            let (o, _) = run_scenario(sc, None, None, Dec::from_list(Vec::new()), false, 0, false);
+            cases.push((i, None, false));
+            cases.push((i, None, true));
             for (idx, n) in o.trace.iter().enumerate() {
                 for &e in plausible_errnos(*n) {
-                    cases.push((i, Some(Plan { side: Side::Parent, index: idx as u32, errno: e })));
+                    cases.push((i, Some(Plan { side: Side::Parent, index: idx as u32, errno: e }), false));
+                    if e == plausible_errnos(*n)[0] {
+                        cases.push((i, Some(Plan { side: Side::Parent, index: idx as u32, errno: e }), true));
+                    }
                 }
             }
             for (idx, n) in o.child_trace.iter().enumerate() {
@@ -509,7 +531,7 @@ fn table() -> &'static Table {
                     continue;
                 }
                 let es = plausible_errnos(*n);
-                cases.push((i, Some(Plan { side: Side::Child, index: idx as u32, errno: es[0] })));
+                cases.push((i, Some(Plan { side: Side::Child, index: idx as u32, errno: es[0] }), false));
             }
         }
         Table { cases }
@@ -536,7 +558,7 @@ impl Check for C12 {
         12
     }
     fn rule(&self) -> String {
-        "enumeration part (complete): for each of the scenarios in c12.rs (public fd-creating operations incl. invalid-argument variants), pass 1 records the system-call trace on the real kernel, then every call index of that trace (parent side, and child side of fork for spawn) is failed - the call is not executed - with every plausible errno of that call (table in simk::fdm); plus the fault-free run. seeded part: scenario drawn by seed, every call fails with probability 1..4/64 (multi-fault). Oracle after each run: the process's real descriptor set (/proc/self/fd) after dropping the operation's results equals the set before; the model flags a close of a descriptor the scenario neither opened nor was given and a second close of the same descriptor. non-trivial = a fault actually fired; distinct = hash of (scenario, trace, plan, outcome)".into()
+        "enumeration part (complete): for each of the scenarios in c12.rs (public fd-creating operations incl. invalid-argument variants), pass 1 records the system-call trace on the real kernel, then every call index of that trace (parent side, and child side of fork for spawn) is failed - the call is not executed - with every plausible errno of that call (table in simk::fdm); plus the fault-free run; the fault-free run and one errno per call index are repeated with descriptor 0 closed beforehand (the kernel then hands out 0 to the operation). seeded part: scenario drawn by seed, every call fails with probability 1..4/64 (multi-fault). Oracle after each run: the process's real descriptor set (/proc/self/fd) after dropping the operation's results equals the set before; the model flags a close of a descriptor the scenario neither opened nor was given and a second close of the same descriptor. non-trivial = a fault actually fired; distinct = hash of (scenario, trace, plan, outcome)".into()
     }
     fn assumptions(&self) -> Vec<String> {
         vec![
@@ -554,21 +576,21 @@ impl Check for C12 {
     fn run(&self, case: u64, mut dec: Dec, opts: &RunOpts) -> RunOut {
         let scs = scenarios();
         let t = table();
-        let (si, plan, random) = if (case as usize) < t.cases.len() {
-            let (si, p) = t.cases[case as usize];
-            (si, p, None)
+        let (si, plan, random, low) = if (case as usize) < t.cases.len() {
+            let (si, p, low) = t.cases[case as usize];
+            (si, p, None, low)
         } else {
             let si = dec.choose(K::Op, scs.len() as u32) as usize;
             let p = 1 + dec.choose(K::Cfg, 4);
-            (si, None, Some(p))
+            (si, None, Some(p), dec.chance(K::Cfg, 1, 3))
         };
         let sc = &scs[si];
-        let (mut o, mut dec) = run_scenario(sc, plan, random, dec, opts.record, case);
+        let (mut o, mut dec) = run_scenario(sc, plan, random, dec, opts.record, case, low);
         if random.is_some() && o.violation.is_some() {
             // fault minimisation: does one of the fired faults alone reproduce a violation? then
             // report it under that single-fault signature (the same one the enumeration part uses)
             for (idx, e) in o.random_fired.clone() {
-                let (o2, _) = run_scenario(sc, Some(Plan { side: Side::Parent, index: idx, errno: e }), None, Dec::from_list(Vec::new()), false, case);
+                let (o2, _) = run_scenario(sc, Some(Plan { side: Side::Parent, index: idx, errno: e }), None, Dec::from_list(Vec::new()), false, case, low);
                 if o2.violation.is_some() && o2.fired {
                     o.violation = o2.violation;
                     break;
@@ -588,8 +610,9 @@ impl Check for C12 {
         out.counters.insert("probe.operation_returned_ok_despite_fault", u64::from(o.fired && o.result_ok));
         out.counters.insert("probe.child_returned_into_caller", u64::from(o.returned_in_child));
         out.counters.insert("syscalls_traced", o.trace.len() as u64);
+        out.counters.insert("probe.run_with_descriptor_0_free", u64::from(low));
         if opts.record {
-            out.sample = Some(json!({"scenario": sc.name, "plan": plan.map(|p| format!("{:?} call {} -> errno {}", p.side, p.index, p.errno)), "trace": o.trace.iter().map(|n| sys_name(*n)).collect::<Vec<_>>(), "child_trace": o.child_trace.iter().map(|n| sys_name(*n)).collect::<Vec<_>>(), "returned_ok": o.result_ok}));
+            out.sample = Some(json!({"scenario": sc.name, "plan": plan.map(|p| format!("{:?} call {} -> errno {}", p.side, p.index, p.errno)), "descriptor_0_closed_beforehand": low, "trace": o.trace.iter().map(|n| sys_name(*n)).collect::<Vec<_>>(), "child_trace": o.child_trace.iter().map(|n| sys_name(*n)).collect::<Vec<_>>(), "returned_ok": o.result_ok}));
         }
         out
     }
